@@ -934,11 +934,16 @@ impl endpoint::Session for Session {
         #[cfg(feature = "log")]
         log::trace!("RECV frame = {:?}", detach);
         // Remove the link by input handle
-        match self
-            .link_by_input_handle
-            .remove(&InputHandle::from(detach.handle.clone()))
-        {
+        let input_handle = InputHandle::from(detach.handle.clone());
+        match self.link_by_input_handle.remove(&input_handle) {
             Some(mut link) => {
+                // The deliveries of this attachment can no longer be disposed of. Forget which
+                // delivery-ids belonged to it: the handle may be given to another attachment, whose
+                // delivery-tags may start over, and a late disposition that still names an old
+                // delivery-id must not be taken for one of the new deliveries.
+                self.delivery_tag_by_id
+                    .retain(|_, (handle, _)| *handle != input_handle);
+
                 // The link endpoint may already have been dropped without an explicit
                 // close handshake (e.g. a `Sender`/`Receiver` that was simply dropped).
                 // In that case the frame cannot be forwarded and the detach reply is
